@@ -23,6 +23,7 @@ type patReader struct {
 	failAfter int   // -1: never fail; else after this many bytes were delivered
 	failErr   error // error to return
 	withData  bool  // return the error together with the last bytes
+	transient bool  // the error is reported once; later calls deliver data again
 	consumed  int
 }
 
@@ -46,6 +47,9 @@ func (r *patReader) Read(p []byte) (int, error) {
 	if r.failAfter >= 0 {
 		left := r.failAfter - r.off
 		if left <= 0 {
+			if r.transient {
+				r.failAfter = -1
+			}
 			return 0, r.failErr
 		}
 		if n >= left {
@@ -54,6 +58,9 @@ func (r *patReader) Read(p []byte) (int, error) {
 			r.off += n
 			r.consumed += n
 			if r.withData {
+				if r.transient {
+					r.failAfter = -1
+				}
 				return n, r.failErr
 			}
 			return n, nil
@@ -78,7 +85,7 @@ func jobC14(c *rt.Ctx) {
 	// GenerateKey over reader behaviours
 	for pi, pat := range pats {
 		for fa := -1; fa <= 33; fa++ {
-			for fk := 0; fk < 3; fk++ {
+			for fk := 0; fk < 5; fk++ {
 				if fa < 0 && fk > 0 {
 					continue
 				}
@@ -94,6 +101,14 @@ func jobC14(c *rt.Ctx) {
 				case 2:
 					r.failErr = errC14
 					r.withData = true
+				case 3:
+					// an error reported once together with some bytes; the source would deliver again
+					r.failErr = errC14
+					r.withData = true
+					r.transient = true
+				case 4:
+					r.failErr = errC14
+					r.transient = true
 				}
 				pub, priv, err := GenerateKey(r)
 				c.Step(1)
